@@ -12,7 +12,7 @@ use serde_json::json;
 
 pub const SEGS: [&[u8]; 9] = [b"a", b"a b", "ü".as_bytes(), b"~._-", b"a+b", b"%", b"a/b", b"*", b"\xe9"];
 pub const QNAMES: [&[u8]; 8] = [b"a", b"a-", b"a0", b"A", b"b", b"", b"\xe9", b" "];
-pub const QVALUES: [&[u8]; 6] = [b"", b"1", b"a b", b"=", b"&", b"+"];
+pub const QVALUES: [&[u8]; 7] = [b"", b"1", b"a b", b"=", b"&", b"+", b"%41"];
 
 /// bytes the `http` crate admits literally in a path / in a query
 pub fn admitted(in_query: bool) -> Vec<u8> {
@@ -309,7 +309,7 @@ pub fn run(ctx: &Ctx) -> Report {
         Some("application/x-www-form-urlencoded;charset=UTF-8"),
         Some("application/json"),
     ];
-    let tokens: [Option<&str>; 3] = [None, Some("AQoDYXdzEPT//////////wEXAMPLE+/=="), Some("tok en~*")];
+    let tokens: [Option<&str>; 4] = [None, Some("AQoDYXdzEPT//////////wEXAMPLE+/=="), Some("tok en~*"), Some("")];
     let methods = ["GET", "POST", "PUT", "DELETE", "HEAD", "PATCH"];
     let total_d = bodies.len() as u64 * ctypes.len() as u64 * 3 * 2 * tokens.len() as u64 * methods.len() as u64 * 2;
     let base_d = base;
@@ -473,7 +473,7 @@ pub fn run(ctx: &Ctx) -> Report {
     Report {
         stats: st,
         rule: format!(
-            "requests signed by the independent reference signer from decoded data, then spelled on the wire: (A) every path of <= {} segments over {} segment values x trailing slash x {} spellings per segment x carrier x {{standard,S3}}; (B) every list of <= {} parameters over {} names x {} values, full product of {} spellings per element for <= 2 parameters and one element at a time above, x carrier; (C) 9 header sets x 6 Authorization parameter orders x 4 separators x 2 leads x 3 name cases x X-Amz-Date/Date x extras signed or not; (D) 6 bodies x 5 content types x {{default,S3,fold}} x carrier x 3 tokens x 6 methods x URL parameters; (E) 9 clock offsets in [-15min,+15min] incl. +-1ns from the bounds x 4 server instants x 6 date renderings x carrier; (F) 1080 rich combinations. Oracle: accepted, provider asked exactly once with (access key, token, UTC date, region, service). states = distinct reference canonical requests; non-trivial = distinct (wire request, options, clock)",
+            "requests signed by the independent reference signer from decoded data, then spelled on the wire: (A) every path of <= {} segments over {} segment values x trailing slash x {} spellings per segment x carrier x {{standard,S3}}; (B) every list of <= {} parameters over {} names x {} values, full product of {} spellings per element for <= 2 parameters and one element at a time above, x carrier; (C) 9 header sets x 6 Authorization parameter orders x 4 separators x 2 leads x 3 name cases x X-Amz-Date/Date x extras signed or not; (D) 6 bodies x 5 content types x {{default,S3,fold}} x carrier x 4 tokens (incl. the empty one) x 6 methods x URL parameters; (E) 9 clock offsets in [-15min,+15min] incl. +-1ns from the bounds x 4 server instants x 6 date renderings x carrier; (F) 1080 rich combinations. Oracle: accepted, provider asked exactly once with (access key, token, UTC date, region, service). states = distinct reference canonical requests; non-trivial = distinct (wire request, options, clock)",
             nseg, SEGS.len(), NSPELL, nq, QNAMES.len(), QVALUES.len(), NSPELL
         ),
         bounds: json!({"path_segments": nseg, "query_params": nq, "cases_enumerated": base}),
